@@ -112,12 +112,16 @@ impl Prefix {
         let version = Version::try_from(version).ok()?;
         let multihash_len = u8::try_from(multihash_len).ok()?;
 
-        Some(Prefix {
+        let prefix = Prefix {
             version,
             codec,
             multihash_type,
             multihash_len,
-        })
+        };
+
+        // The varint decoder silently drops the bits of a 10-byte varint that do not fit into a
+        // `u64`; such a prefix does not encode the values parsed above.
+        (prefix.to_bytes() == prefix_bytes).then_some(prefix)
     }
 }
 
